@@ -220,6 +220,7 @@ func (z *zkDCS) handleSessionEvent(ev zk.Event) {
 	} else {
 		z.lockHeldEpoch.Add(1)
 		z.lockHeld.Clear()
+		z.connectedLock.Lock()
 		if z.closeTimer == nil {
 			z.closeTimer = time.AfterFunc(z.config.SessionTimeout, func() {
 				z.connectedLock.Lock()
@@ -234,6 +235,7 @@ func (z *zkDCS) handleSessionEvent(ev zk.Event) {
 				z.connectedLock.Unlock()
 			})
 		}
+		z.connectedLock.Unlock()
 	}
 }
 
